@@ -221,6 +221,7 @@ type EvPlan struct {
 	Ref   string `json:"ref"`
 	After int    `json:"after"` // deliver after this many traces were observed
 	Own   bool   `json:"own"`   // from its own goroutine
+	WhenListening int `json:"whenListening,omitempty"` // (own) wait until this many ActiveListeningTraces were observed
 }
 
 const watchdog = 100 * time.Second
@@ -277,6 +278,7 @@ func (c *ProcCase) Main() {
 	reqs := make(chan pendingReq, 4096)
 	stop := make(chan struct{})
 	var ntraces simlog.Cell
+	var nlistening simlog.Cell
 	var idle simlog.Cell // 1 while the answerer has nothing it intends to do
 	idle.Set(1)
 	cancelled := make(chan struct{})
@@ -294,6 +296,9 @@ func (c *ProcCase) Main() {
 			k, a, b := describe(u)
 			n := int(ntraces.Add(1))
 			L.Add("t:"+k, a, b, n)
+			if k == "listening" {
+				nlistening.Add(1)
+			}
 			if tt, ok := u.(bpmn.TaskTrace); ok {
 				seq[a]++
 				if tt.Context().Err() != nil {
@@ -539,7 +544,7 @@ func (c *ProcCase) Main() {
 		ei, ep := ei, ep
 		go func() {
 			// (bounded: if the instance comes to rest before that many traces were seen, deliver anyway)
-			for polls := 0; int(ntraces.Get()) < ep.After && polls < 40; polls++ {
+			for polls := 0; (int(ntraces.Get()) < ep.After || int(nlistening.Get()) < ep.WhenListening) && polls < 40; polls++ {
 				select {
 				case <-time.After(time.Millisecond):
 				case <-stop:
